@@ -294,6 +294,7 @@ class ClientCalls(Suite):
     RKINDS = ["ok", "ok", "ok", "ok-dup", "error", "silence"]
     CODES = [-32603, -32601, -32000, 429, 0, -32602]
     N = (1200, 40000)
+    FLOOD = 0.0
 
     def dflt(self):
         if ClientCalls._dflt is None:
@@ -355,6 +356,12 @@ class ClientCalls(Suite):
                 rscript = []
                 for _s in range(rng.choice([0, 1, 1, 2, 3])):
                     rscript.append([rng.choice([0, 1, d1]), stray(others())])
+                if self.FLOOD and rng.random() < self.FLOOD:
+                    # unrelated traffic at a steady rate faster than the poll period, through the whole
+                    # window of the request's timeout and beyond
+                    step = rng.choice([100, 300, 511, 512])
+                    for j in range(rng.choice([20, 130, 620 * 100 // step])):
+                        rscript.append([j * step + rng.choice([0, 1]), stray(others())])
                 if rkind.startswith("ok"):
                     rscript.append([d1, {"k": "resp", "id": "$ID", "p": C.OPS[op]["payload"](fresh())}])
                     if rkind == "ok-dup":
@@ -455,6 +462,8 @@ class ClientCalls(Suite):
             op = C.OPS[spec["op"]]
             inits = [w for w in r["writes"] if w["method"] == "initialize"]
             own = [w for w in r["writes"] if w["id"] is not None and w["method"] and w["method"] != "initialize"]
+            if r["outcome"] == "hung":
+                return ("client/never-completes", f"call {i} ({spec['op']}) neither returned nor failed: still running after every timeout it runs under", {"outcome": "timeout"})
             if initialized and inits:
                 return ("client/initialized-twice", f"call {i} ({spec['op']}) of an initialized client wrote another initialize request", {"initialize": 0})
             if len(inits) > 1:
